@@ -19,13 +19,27 @@ the smart server (side R).  After EVERY operation
     ids of C
 must be equal on both sides (oracle; this is the property itself).
 
-T2 (model): a second stream of scripts restricted to the verbs modelled in
-Model/C32.lean (lock_write / unlock with tokens and leave_lock_in_place,
-set_last_revision_info, tag set / delete, config set / get, get_parent_map,
-fetch of a revision with its ancestry, reads) is additionally compared,
-operation by operation, with the Lean model's local step function AND with its
-remote step function (wire encoding -> server step -> wire decoding), on both
-sides.
+Lock-scope sessions (stream "session"): the same comparison for scripts in which ONE long-lived target object
+is locked (`hold w|r`, nested, released, re-taken) and STAYS locked over whole operation sequences: VFS-delegated
+operations (pull into the target, push FROM the target — RemoteBranch hands both to its VFS branch object, which
+has caches of its own), tip changes over RPC (push into the target, set_last_revision_info with and without a
+preceding fetch, generate_revision_history), tag / config / repository operations and reads, while the source
+trees keep advancing, diverging, merging and getting tagged.  Stale client-side caches are only observable
+inside one lock scope (unlock drops them: theorem `seeded_variant_invisible_without_lock_scope`), so this
+stream is what finds cache-coherence regressions between RemoteBranch and `_real_branch`.
+
+T2 (model): two further streams are restricted to modelled operations and are additionally compared,
+operation by operation, with the Lean model's local AND remote step functions, on both sides:
+  * "modelled": the verbs of Model/C32.lean, every operation on a fresh object (lock_write / unlock with tokens
+    and leave_lock_in_place, set_last_revision_info, tag set / delete, config set / get, get_parent_map, fetch of a
+    revision with its ancestry, reads) — remote step = wire encoding -> server step -> wire decoding;
+  * "msession": lock-scope sessions over the operations of Model/C32S.lean (lock_write / lock_read / unlock on the
+    long-lived object, last_revision_info, fetch + set_last_revision_info, pull with source tags, tag set / read).
+    Besides results and the final stored state, the object's PRIVATE lock state and caches after EVERY operation
+    (`_lock_mode`, `_lock_count`, `_last_revision_info_cache`, `_tags_bytes`, `_real_branch is not None` and the VFS
+    branch's two caches) are compared with the model's `Obj`, and the model's cache-free specification run must
+    equal its local run (the instance of `local_session_run_spec`).  The harness probes which tag-cache variant
+    the tree has (`probe_tags_variant`) and selects the model variant accordingly.
 
 Findings on the unchanged tree (families computed by `_family` from the failing step):
   get-parent-map-null-dropped: RemoteRepository.get_parent_map([... b"null:" ...]) loses the
@@ -38,6 +52,14 @@ Findings on the unchanged tree (families computed by `_family` from the failing 
     get_config_stack().get(name) on the same branch object is None locally and v through the server.
   append-revisions-only-error-untranslated: a push / pull that violates append_revisions_only raises
     AppendRevisionsOnlyViolation locally and UnknownErrorFromSmartServer through the server.
+  append-revisions-only-ghost-tip-error-untranslated: with append_revisions_only set, set_last_revision_info to a
+    revision that is not stored raises vcsgraph's RevisionNotPresent locally and UnknownErrorFromSmartServer
+    through the server (sibling of the previous family; seen in the thorough tier only).
+  remote-tags-cache-stale-in-lock-scope: RemoteBranch and its VFS branch object each cache the tags file while
+    the lock is held and neither hears of the other's writes: (a) tags read, pull that merges source tags (written
+    by the VFS branch), tag write over RPC -> the pulled tags are lost; (b) pull that merges tags (VFS branch caches
+    them), tag write over RPC, pull / push-from again -> the tag written over RPC is lost / not pushed.  Modelled
+    by the variant flags `tagsOwn` / `tagsReal` (theorems stale_tags_cache_witness, stale_vfs_tags_cache_witness).
 Error classes are compared modulo EQUIV_ERRORS (the server verb documents that it reports an absent
 revision as NoSuchRevision where the local code raises GhostRevisionsHaveNoRevno).
 
@@ -51,7 +73,17 @@ Mutants this was built against (scratch worktree, all semantic ones caught by th
   M7 SmartServerLockedBranchRequest ignores the client's token       -> E:LockContention through the server
   (M8 server sends parents (null:,) on the wire instead of ()        -> gen_history: E:ReservedId through the server)
   H1 `token == b"" -> None` rewritten as `token or None` (harmless)  -> same result as the unchanged tree
+Second round (lock-scope sessions; all on top of the proposed tag-cache fix, all caught by the oracle):
+  M9  RemoteBranch.pull no longer drops its own caches before delegating    -> result of set_tip / tip after a pull
+  M10 RemoteBranch.unlock keeps the caches                                  -> client_pull / tip after another writer
+  M11 _set_last_revision_descendant leaves the VFS branch's caches alone    -> pull after generate_revision_history
+  M12 nested RemoteBranch.lock_write does not count                         -> state:locked after the inner unlock
+  M13 set_last_revision_info primes the VFS branch with the OLD tip         -> pull after a tip change over RPC
+  M14 set_last_revision_info does not refresh the RemoteBranch's tip cache  -> push / tip after a tip change
+  (seed) set_last_revision_info clears only its own caches, no priming      -> pull accepted where local diverges
+  H2  VFS branch primed before the post-change hooks run (harmless)         -> clean
 """
+import json
 import os
 import shutil
 import sys
@@ -59,12 +91,20 @@ import sys
 from vlib import env
 
 THEOREMS = ["remote_step_refines_local", "remote_step_refines_local_partial", "parent_map_null_dropped_witness",
-            "remote_run_refines_local"]
-RULE = ("case = an operation script of <= 20 operations (commit in source trees / through a lightweight checkout, "
-        "merge, push, pull, fetch, tag set/delete, config set/get, lock/unlock with tokens, set tip, "
-        "get_parent_map, revision / tree / testament reads) drawn from the PRNG; it is executed on a local path and "
-        "through bzr:// on identical directories; non-trivial = the script changes the target at least once "
-        "through a remote verb (push/pull/fetch/commit/tag/config/tip/lock)")
+            "remote_run_refines_local",
+            # part 2: lock-scope sessions on one long-lived object, caches as state (Model/C32S.lean)
+            "local_session_step_spec", "remote_session_step_spec", "local_session_run_spec", "remote_session_run_spec",
+            "remote_session_refines_local", "remote_session_refines_local_partial", "fresh_remote_session_refines_local",
+            "fresh_remote_session_refines_local_partial", "session_caches_scoped",
+            "local_session_caches_scoped", "seeded_variant_invisible_without_lock_scope", "stale_tip_cache_witness",
+            "stale_tags_cache_witness", "stale_vfs_tags_cache_witness", "spec_unlocked_eq_localStep_tagSet",
+            "spec_unlocked_eq_localStep_reads"]
+RULE = ("case = an operation script of <= 22 operations (commit in source trees / through a lightweight checkout, "
+        "merge, source tags, push into / from the target, pull, fetch, tag set/delete, config set/get, lock/unlock with "
+        "tokens, lock scopes on one long-lived object (write / read, nested), set tip, get_parent_map, revision / tree "
+        "/ testament reads) drawn from the PRNG in four streams (general, modelled, session, msession); it is executed "
+        "on a local path and through bzr:// on identical directories; non-trivial = the script changes the target at "
+        "least once through a remote verb (push/pull/fetch/commit/tag/config/tip/lock)")
 ASSUMPTIONS = [
     "the server is breezy's own SmartTCPServer run in a thread of the same process (127.0.0.1, protocol v3)",
     "revision ids, file ids, timestamps and committers are chosen by the script so that both sides can be compared byte for byte",
@@ -72,10 +112,15 @@ ASSUMPTIONS = [
     "parent locations set by the scripts are relative paths inside the served tree or non-file URLs: a parent stored "
     "relative to the branch resolves differently, by design, under file:// and under the server's bzr:// root",
     "model hypotheses: revision ids on the get_parent_map wire are non-empty, contain no blank / newline and do not start with 'missing:'",
+    "msession stream: the lock state and caches of the real objects are read from private attributes (_lock_mode, _lock_count, "
+    "control_files._lock_mode/_lock_count, _last_revision_info_cache, _tags_bytes, _real_branch); renaming them breaks the tie, not the oracle",
 ]
 TRUSTED = [
     "lock tokens are nonces: only their presence is compared",
-    "only the verbs listed in Model/C32.lean are modelled; push/pull/commit/VFS fallbacks are compared side against side, not modelled",
+    "only the verbs listed in Model/C32.lean and the session operations of Model/C32S.lean are modelled; push, commit, "
+    "generate_revision_history, config and the other VFS fallbacks are compared side against side, not modelled",
+    "session model: the VFS branch object's file reads / writes (last-revision, tags) go straight to the stored state "
+    "(the VFS verbs and their path handling are C31's subject); the repository-level caches are not modelled",
 ]
 
 COMMITTER = "Verif Tester <verif@example.com>"
@@ -217,7 +262,14 @@ def _commit(wt, n, files, rev_id, merge=None):
                      committer=COMMITTER, allow_pointless=True)
 
 
-WORLD_OPS = ("src_commit", "branch_B", "src_merge")
+def _tagres(r):
+    """tag part of a push / pull result"""
+    tu = getattr(r, "tag_updates", None) or {}
+    tc = getattr(r, "tag_conflicts", None) or ()
+    return [sorted(canon(dict(tu)).items()), sorted(canon([list(c) for c in tc]))]
+
+
+WORLD_OPS = ("src_commit", "branch_B", "src_merge", "src_tag")
 
 
 def do_op(side, op, n):
@@ -231,6 +283,10 @@ def do_op(side, op, n):
             if k == "src_commit":
                 _, which, files, revid = op
                 return canon(_commit(w.src(which), n, [(f, c.encode()) for f, c in files], revid.encode()))
+            if k == "src_tag":
+                _, which, name, revid = op
+                w.src(which).branch.tags.set_tag(name, revid.encode())
+                return "ok"
             if k == "branch_B":
                 if w.B is None:
                     w.B = w.A.controldir.sprout(os.path.join(w.base, "B")).open_workingtree()
@@ -247,9 +303,28 @@ def do_op(side, op, n):
             r = side.src(which).branch.push(side.T(), overwrite=overwrite, stop_revision=stop.encode() if stop else None)
             return canon((r.old_revno, r.old_revid, r.new_revno, r.new_revid))
         if k == "pull_into_T":
-            _, which, overwrite = op
-            r = side.T().pull(side.src(which).branch, overwrite=overwrite)
-            return canon((r.old_revno, r.old_revid, r.new_revno, r.new_revid))
+            which, overwrite = op[1], op[2]
+            stop = op[3] if len(op) > 3 else None
+            r = side.T().pull(side.src(which).branch, overwrite=overwrite, stop_revision=stop.encode() if stop else None)
+            return canon((r.old_revno, r.old_revid, r.new_revno, r.new_revid, _tagres(r)))
+        if k == "push_from_T":
+            # the target as the SOURCE of a push (RemoteBranch.push delegates to the VFS branch)
+            r = side.T().push(side.C(), overwrite=op[1])
+            return canon((r.old_revno, r.old_revid, r.new_revno, r.new_revid, _tagres(r)))
+        if k == "hold":
+            # lock scope: the long-lived target object (NOT reopened) is locked and stays locked
+            t = side.T()
+            tok = t.lock_write().token if op[1] == "w" else (t.lock_read(), None)[1]
+            side.held.append((t, tok))
+            return "token" if tok else "no-token"
+        if k == "set_tip_fetch":
+            _, which, revno, revid = op
+            t = side.T()
+            with t.lock_write():
+                t.repository.fetch(side.src(which).branch.repository, revision_id=revid.encode())
+                before = t.last_revision_info()
+                t.set_last_revision_info(revno, revid.encode())
+                return canon((before, t.last_revision_info()))
         if k == "client_pull":
             _, overwrite = op
             r = side.C().pull(side.T(), overwrite=overwrite)
@@ -416,6 +491,8 @@ def do_op(side, op, n):
             return "ok"
         if k.startswith("m_"):
             return do_model_op(side, op)
+        if k.startswith("s_"):
+            return do_session_op(side, op)
         raise AssertionError("unknown op %r" % (op,))
     except (KeyboardInterrupt, SystemExit, AssertionError):
         raise
@@ -482,6 +559,68 @@ def do_model_op(side, op):
     raise AssertionError("unknown op %r" % (op,))
 
 
+def do_session_op(side, op):
+    """the operations of the modelled lock-scope sessions: all of them on the ONE long-lived object"""
+    k = op[0]
+    t = side.T()
+    if k == "s_lock":
+        if op[1] == "w":
+            tok = t.lock_write().token
+            side.held.append((t, tok))
+            return "token" if tok else "no-token"
+        t.lock_read()
+        side.held.append((t, None))
+        return "ok"
+    if k == "s_unlock":
+        t.unlock()
+        if side.held:
+            side.held.pop()
+        return "ok"
+    if k == "s_tip":
+        return canon(t.last_revision_info())
+    if k == "s_set_tip":
+        _, which, revno, revid = op
+        with t.lock_write():
+            t.repository.fetch(side.src(which).branch.repository, revision_id=revid.encode())
+            before = t.last_revision_info()
+            t.set_last_revision_info(revno, revid.encode())
+            return canon((before, (revno, revid.encode()), 0))
+    if k == "s_pull":
+        r = t.pull(side.src(op[1]).branch, overwrite=op[2])
+        return canon(((r.old_revno, r.old_revid), (r.new_revno, r.new_revid), len(r.tag_conflicts or ())))
+    if k == "s_tag_set":
+        t.tags.set_tag(op[1], op[2].encode())
+        return "ok"
+    if k == "s_tag_dict":
+        return canon(t.tags.get_tag_dict())
+    raise AssertionError("unknown op %r" % (op,))
+
+
+def obj_snapshot(side):
+    """lock state and caches of the long-lived target object (private attributes of BzrBranch /
+    RemoteBranch and of its VFS branch), in the notation of the Lean driver"""
+    t = side._T
+    if t is None:
+        return "u0/~/~/F/~/~"
+
+    def tip(c):
+        return "~" if c is None else "%d:%s" % (c[0], hx(c[1]))
+
+    def tags(b):
+        raw = b._tags_bytes
+        return "~" if raw is None else enc_dict(b.tags._deserialize_tag_dict(raw))
+
+    real = getattr(t, "_real_branch", None)
+    if hasattr(t, "_real_branch"):
+        mode, cnt = (t._lock_mode or "u"), max(t._lock_count, 0)
+    else:
+        cnt = t.control_files._lock_count
+        mode = (t.control_files._lock_mode or "u") if cnt else "u"
+    return "%s%d/%s/%s/%s/%s/%s" % (mode, cnt, tip(t._last_revision_info_cache), tags(t), "T" if real is not None else "F",
+                                     tip(real._last_revision_info_cache) if real is not None else "~",
+                                     tags(real) if real is not None else "~")
+
+
 def readback(side, full=False):
     """the state of T (and the revisions of C) read locally, with fresh objects"""
     from breezy.branch import Branch
@@ -523,7 +662,7 @@ def readback(side, full=False):
     out["locked"] = [os.path.isdir(os.path.join(side.t_path, ".bzr", "branch", "lock", "held")),
                      os.path.isdir(os.path.join(side.t_path, ".bzr", "repository", "lock", "held"))]
     c = Branch.open(os.path.join(side.base, "C"))
-    out["C"] = canon((c.last_revision_info(), sorted(c.repository.all_revision_ids())))
+    out["C"] = canon((c.last_revision_info(), sorted(c.repository.all_revision_ids()), c.tags.get_tag_dict()))
     return out
 
 
@@ -535,7 +674,7 @@ CONF_NAMES = ["foo", "push_location", "my.opt", "child_submit_to", "append_revis
 CONF_VALUES = ["bar", "a b", "café", "x,y", "  padded ", "q\"uote", "True", "", "#hash", "it's", "a=b", "[sec]",
                "line1\\nline2", "semi;colon"]
 FILES = ["f", "g", "dir-less h", "é"]
-REMOTE_OPS = {"m_fetch", "m_tip_set", "m_tag_set", "m_tag_del", "m_conf_set", "m_lock_leave", "m_relock_release",
+REMOTE_OPS = {"s_lock", "s_set_tip", "s_pull", "s_tag_set", "hold", "push_from_T", "set_tip_fetch", "m_fetch", "m_tip_set", "m_tag_set", "m_tag_del", "m_conf_set", "m_lock_leave", "m_relock_release",
               "m_tip_set_tok", "push", "pull_into_T", "fetch_to_T", "tag_set", "tag_delete", "conf_set", "conf_set_old", "set_tip",
               "gen_history", "ck_commit", "lock", "unlock", "set_parent", "lock_with_token", "break_lock"}
 
@@ -635,6 +774,194 @@ def gen_script(rng, length):
 
 
 # --------------------------------------------------------------------------
+# lock-scope sessions: ONE long-lived target object, kept locked across a whole sequence of operations
+
+class _Dag:
+    """what the generator knows about the source trees while it writes a script: mainlines, ancestry,
+    tags (world operations are deterministic, so this mirrors what they will build)"""
+
+    def __init__(self):
+        self.main = {"A": [], "B": None}          # lefthand history of each tree
+        self.anc = {}                             # revision -> set of ancestors (inclusive)
+        self.n = 0
+
+    def new(self, prefix):
+        self.n += 1
+        return "%s%d" % (prefix, self.n)
+
+    def commit(self, which, rev, extra_parent=None):
+        m = self.main[which]
+        a = {rev} | (self.anc[m[-1]] if m else set()) | (self.anc[extra_parent] if extra_parent else set())
+        self.anc[rev] = a
+        m.append(rev)
+
+    def tip(self, which):
+        m = self.main[which]
+        return m[-1] if m else None
+
+    def trees(self):
+        return ["A", "B"] if self.main["B"] is not None else ["A"]
+
+    def pick(self, rng, which=None):
+        """(tree, revno, revision) of a mainline revision"""
+        which = which or rng.choice(self.trees())
+        m = self.main[which]
+        i = rng.randrange(len(m))
+        return which, i + 1, m[i]
+
+
+def _world_step(rng, dag, ops, files, p_tag=0.0):
+    """append one operation on the source trees"""
+    x = rng.random()
+    if dag.main["B"] is None and x < 0.35 and len(dag.main["A"]) >= 1:
+        ops.append(("branch_B",))
+        dag.main["B"] = list(dag.main["A"])
+        return
+    if dag.main["B"] is not None and x < 0.5:
+        into = rng.choice("AB")
+        other = "B" if into == "A" else "A"
+        if dag.tip(other) not in dag.anc[dag.tip(into)]:
+            rev = dag.new("m")
+            ops.append(("src_merge", into, rev))
+            dag.commit(into, rev, extra_parent=dag.tip(other))
+            return
+    if rng.random() < p_tag:
+        which, _, rev = dag.pick(rng)
+        ops.append(("src_tag", which, rng.choice(NAMES), rev))
+        return
+    which = rng.choice(dag.trees())
+    rev = dag.new("r")
+    ops.append(("src_commit", which, files(), rev))
+    dag.commit(which, rev)
+
+
+def gen_session_script(rng, length):
+    """source trees that diverge, then a session on the long-lived target object: `hold` opens a lock scope
+    that stays open over VFS-delegated operations (pull into the target, push FROM the target), tip changes
+    over RPC (push into the target, set_last_revision_info, generate_revision_history), tag / config /
+    repository operations and reads, with the sources advancing in between"""
+    ops, dag = [], _Dag()
+
+    def files():
+        return [(rng.choice(FILES), "c%d\n" % rng.randrange(1000)) for _ in range(rng.randint(1, 2))]
+
+    p_tag = 0.25 if rng.random() < 0.35 else 0.0
+    rev = dag.new("a")
+    ops.append(("src_commit", "A", files(), rev))
+    dag.commit("A", rev)
+    for _ in range(rng.randint(2, 5)):
+        _world_step(rng, dag, ops, files, p_tag)
+    if rng.random() < 0.6:
+        ops.append(("push", "A", False, dag.pick(rng, "A")[2] if rng.random() < 0.5 else None))
+    depth = 0
+    mode = None
+
+    def anyrev(p_missing=0.05):
+        if rng.random() < p_missing:
+            return rng.choice(["ghost-x", "null:"])
+        return dag.pick(rng)[2]
+
+    while len(ops) < length:
+        x = rng.random()
+        if depth == 0 and x < 0.55:
+            mode = "w" if rng.random() < 0.85 else "r"
+            ops.append(("hold", mode))
+            depth = 1
+        elif x < 0.03 and depth:
+            ops.append(("hold", mode))            # nested
+            depth += 1
+        elif x < 0.07 and depth:
+            ops.append(("unlock", False))
+            depth -= 1
+        elif x < 0.22:
+            ops.append(("pull_into_T", rng.choice(dag.trees()), rng.random() < 0.25,
+                        dag.pick(rng)[2] if rng.random() < 0.2 else None))
+        elif x < 0.28:
+            ops.append(("push_from_T", rng.random() < 0.3))
+        elif x < 0.37:
+            ops.append(("push", rng.choice(dag.trees()), rng.random() < 0.25, anyrev(0.0) if rng.random() < 0.25 else None))
+        elif x < 0.44:
+            which, revno, r = dag.pick(rng)
+            ops.append(("set_tip_fetch", which, revno if rng.random() < 0.85 else rng.randint(0, 6), r))
+        elif x < 0.47:
+            ops.append(("gen_history", anyrev()))
+        elif x < 0.49:
+            ops.append(("set_tip", rng.randint(0, 6), anyrev(0.1)))
+        elif x < 0.56:
+            ops.append(("tag_set", rng.choice(NAMES), anyrev(0.1)))
+        elif x < 0.59:
+            ops.append(("tag_delete", rng.choice(NAMES)))
+        elif x < 0.64:
+            ops.append(("tag_dict",))
+        elif x < 0.68:
+            ops.append(("fetch_to_T", rng.choice(dag.trees()), anyrev() if rng.random() < 0.7 else None))
+        elif x < 0.73:
+            # (no null: next to other keys here: that known difference would cut the session short)
+            ops.append(("parent_map", [anyrev(0.0) if rng.random() < 0.8 else "ghost-x" for _ in range(rng.randint(1, 3))]))
+        elif x < 0.76:
+            ops.append((rng.choice(["has_revision", "revno_of", "dotted_revno_of", "get_revision"]), anyrev(0.1)))
+        elif x < 0.83:
+            ops.append((rng.choice(["tip", "tip", "all_revs", "merge_sorted", "get_parent"]),))
+        elif x < 0.85:
+            ops.append(("revid_of", rng.randint(0, 5)))
+        elif x < 0.87:
+            ops.append(("client_pull", rng.random() < 0.3))
+        elif x < 0.90:
+            ops.append(("conf_set", rng.choice(CONF_NAMES[:3]), rng.choice(CONF_VALUES)))
+        elif x < 0.92:
+            ops.append(("conf_get", rng.choice(CONF_NAMES[:3])))
+        else:
+            _world_step(rng, dag, ops, files, p_tag)
+    return ops
+
+
+def gen_msession_script(rng, length):
+    """lock-scope sessions over exactly the operations of Model/C32S.lean"""
+    ops, dag = [], _Dag()
+
+    def files():
+        return [(rng.choice(FILES), "c%d\n" % rng.randrange(99))]
+
+    p_tag = 0.3 if rng.random() < 0.5 else 0.0
+    rev = dag.new("a")
+    ops.append(("src_commit", "A", files(), rev))
+    dag.commit("A", rev)
+    for _ in range(rng.randint(1, 4)):
+        _world_step(rng, dag, ops, files, p_tag)
+    mode, depth = None, 0
+    while len(ops) < length:
+        x = rng.random()
+        if (depth == 0 and x < 0.5) or x < 0.04:
+            want = "w" if rng.random() < 0.8 else "r"
+            ops.append(("s_lock", want))
+            if depth == 0:
+                mode, depth = want, 1
+            elif not (mode == "r" and want == "w"):
+                depth += 1
+        elif x < 0.10:
+            if depth or rng.random() < 0.3:
+                ops.append(("s_unlock",))
+                depth = max(0, depth - 1)
+        elif x < 0.30:
+            ops.append(("s_pull", rng.choice(dag.trees()), rng.random() < 0.25))
+        elif x < 0.47:
+            which, revno, r = dag.pick(rng)
+            y = rng.random()
+            if y < 0.06:
+                r = rng.choice(["ghost-x", "null:"])
+            ops.append(("s_set_tip", which, revno if y < 0.85 else rng.randint(0, 6), r))
+        elif x < 0.60:
+            ops.append(("s_tip",))
+        elif x < 0.72:
+            ops.append(("s_tag_set", rng.choice(NAMES), dag.pick(rng)[2] if rng.random() < 0.8 else "ghost-x"))
+        elif x < 0.82:
+            ops.append(("s_tag_dict",))
+        else:
+            _world_step(rng, dag, ops, files, p_tag)
+    return ops
+
+
+# --------------------------------------------------------------------------
 
 def gen_model_script(rng, length):
     """a source history (prefix of world operations) followed by modelled operations only"""
@@ -703,7 +1030,7 @@ EQUIV_ERRORS = {
 }
 
 
-def run_case(ctx, srv, script, label="general", fx=False):
+def run_case(ctx, srv, script, label="general", fx=False, tv=(False, False)):
     srv.n += 1
     cid = "c%d_%d" % (os.getpid(), srv.n)
     ltop = env.fresh_dir("c32L")
@@ -717,22 +1044,29 @@ def run_case(ctx, srv, script, label="general", fx=False):
     ctx.case(case, nontrivial=changed)
     bad = None
     res_l, res_r, sl, sr = [], [], None, None
+    snaps, aux = [], {}
     try:
         for i, op in enumerate(script):
             ctx.count("op:" + op[0])
             if op[0] in WORLD_OPS:
                 do_op(W, op, i)
                 continue
+            if op[0] == "s_pull":
+                # what the model is told about the source branch at this point of the script
+                sb = W.src(op[1]).branch
+                aux[i] = (sb.last_revision_info(), dict(sb.tags.get_tag_dict()))
             rl = do_op(L, op, i)
             rr = do_op(R, op, i)
             res_l.append(rl)
             res_r.append(rr)
+            if label == "msession":
+                snaps.append((obj_snapshot(L), obj_snapshot(R)))
             ctx.traces += 1
             if isinstance(rl, str) and rl.startswith("E:"):
                 ctx.count("err:" + rl)
             if EQUIV_ERRORS.get(rl, rl) != EQUIV_ERRORS.get(rr, rr) if isinstance(rl, str) and isinstance(rr, str) else rl != rr:
                 bad = (i, "result", rl, rr, sl)
-                if label != "modelled":
+                if label not in ("modelled", "msession"):
                     break
             last = i == len(script) - 1
             prev = sl
@@ -760,6 +1094,8 @@ def run_case(ctx, srv, script, label="general", fx=False):
                 bad = (len(script) - 1, "final-state:" + ",".join(keys), {k: fl[k] for k in keys}, {k: fr[k] for k in keys}, sl)
         if label == "modelled" and sl is not None and (bad is None or bad[1] == "result"):
             model_compare(ctx, case, W, script, res_l, res_r, sl, sr, fx)
+        if label == "msession" and sl is not None and (bad is None or bad[1] == "result"):
+            session_model_compare(ctx, case, W, script, aux, res_l, res_r, snaps, sl, sr, tv)
     finally:
         L.close()
         R.close()
@@ -770,7 +1106,7 @@ def run_case(ctx, srv, script, label="general", fx=False):
         ctx.violation(dict(case, failed_at=i),
                       "after operation %d %r of the script the %s differs: local %s / through the smart server %s"
                       % (i, script[i], what, str(l)[:300], str(r)[:300]),
-                      family=_family(script, i, what, l, r, before))
+                      family=_family(script, i, what, l, r, before, tv, fx))
         return bad[:4]
     return bad
 
@@ -856,6 +1192,99 @@ def model_compare(ctx, case, W, script, res_l, res_r, sl, sr, fx):
         ctx.mismatch(case, impl, reply, line=line)
 
 
+def enc_sop(i, op, aux):
+    k = op[0]
+    if k == "s_lock":
+        return "lw" if op[1] == "w" else "lr"
+    if k == "s_unlock":
+        return "ul"
+    if k == "s_tip":
+        return "tp"
+    if k == "s_set_tip":
+        return "st:%d:%s" % (op[2], hx(op[3]))
+    if k == "s_pull":
+        (n, r), tags = aux[i]
+        return "pl:%s:%d:%s:%s" % ("T" if op[2] else "F", n, hx(r), enc_dict(tags))
+    if k == "s_tag_set":
+        return "tg:%s:%s" % (hx(op[1]), hx(op[2]))
+    if k == "s_tag_dict":
+        return "tD"
+    raise AssertionError(op)
+
+
+def enc_sres(op, r):
+    k = op[0]
+    if isinstance(r, str) and r.startswith("E:"):
+        return r
+    if k == "s_tip":
+        return "info=%d:%s" % (r[0], hx(r[1]))
+    if k in ("s_set_tip", "s_pull"):
+        return "moved=%d:%s>%d:%s/%d" % (r[0][0], hx(r[0][1]), r[1][0], hx(r[1][1]), r[2])
+    if k == "s_tag_dict":
+        return "tags=" + enc_dict(r)
+    return r          # ok / token
+
+
+def union_graph(W):
+    pm = {}
+    for wt in (W.A, W.B):
+        if wt is None:
+            continue
+        repo = wt.branch.repository
+        with repo.lock_read():
+            revs = sorted(repo.all_revision_ids())
+            pm.update(repo.get_parent_map(revs))
+    return ";".join("%s:%s" % (hx(r), ",".join(hx(p) for p in pm[r] if p != b"null:") or "~") for r in sorted(pm)) or "-"
+
+
+def session_model_compare(ctx, case, W, script, aux, res_l, res_r, snaps, sl, sr, tv):
+    """T2 for the lock-scope sessions: results, the object's lock state and caches after EVERY operation and
+    the final stored state, for the local and for the remote object, against Model/C32S.lean"""
+    idx = [i for i, o in enumerate(script) if o[0] not in WORLD_OPS]
+    line = "sess T %s %s %s %s" % ("T" if tv[0] else "F", "T" if tv[1] else "F", union_graph(W),
+                                  ";".join(enc_sop(i, script[i], aux) for i in idx) or "-")
+    reply = ctx.model([line])[0]
+    tl = ";".join("%s@%s" % (enc_sres(script[i], r), sn[0]) for i, r, sn in zip(idx, res_l, snaps)) or "-"
+    tr = ";".join("%s@%s" % (enc_sres(script[i], r), sn[1]) for i, r, sn in zip(idx, res_r, snaps)) or "-"
+    impl = "L=%s|%s R=%s|%s" % (tl, enc_state(sl, set()), tr, enc_state(sr, set()))
+    ctx.traces += 1
+    head, _, spec = reply.partition(" S=")
+    if impl != head:
+        ctx.mismatch(case, impl, head, line=line)
+        return
+    # the model's own instance of the refinement theorems: cache-free specification = local object run
+    ml = head[2:].split(" R=")[0]
+    strip = ";".join(x.split("@")[0] for x in ml.split("|")[0].split(";")) + "|" + ml.split("|", 1)[1]
+    if spec != strip:
+        ctx.mismatch(case, "S=" + strip, "S=" + spec, line=line)
+
+
+def probe_tags_variant(srv):
+    """which tag-cache maintenance does RemoteBranch have?  (own cache dropped before a VFS-delegated
+    pull, VFS branch's cache dropped after a tag write over RPC)"""
+    from breezy.branch import Branch
+    from breezy.controldir import ControlDir
+    d = os.path.join(srv.root, "probe-tags")
+    os.makedirs(d, exist_ok=True)
+    a = ControlDir.create_standalone_workingtree(os.path.join(d, "A"), format=_fmt())
+    a.commit("one", rev_id=b"p1", timestamp=1000000000, timezone=0, committer=COMMITTER, allow_pointless=True)
+    a.branch.tags.set_tag("v1", b"p1")
+    ControlDir.create_branch_convenience(os.path.join(d, "t"), force_new_tree=False, format=_fmt())
+    b = Branch.open(srv.url + "probe-tags/t")
+    b.lock_write()
+    try:
+        b.tags.get_tag_dict()
+        b.pull(a.branch)
+        own = b._tags_bytes is None
+        b.tags.set_tag("p", b"p1")
+        real = b._real_branch is not None and b._real_branch._tags_bytes is None
+    finally:
+        b.unlock()
+    b.controldir.transport.disconnect()
+    shutil.rmtree(d, ignore_errors=True)
+    return own, real
+
+
 def probe_fx(srv):
     """does RemoteRepository.get_parent_map keep the null: entry next to other keys?"""
     from breezy.branch import Branch
@@ -871,9 +1300,78 @@ def probe_fx(srv):
     return b"null:" in r
 
 
-def _family(script, i, what, l, r, before=None):
+TAG_OPS = ("tag_set", "tag_delete", "tag_dict", "s_tag_set", "s_tag_dict")
+PULL_OPS = ("pull_into_T", "s_pull")
+
+
+def _lock_scope_start(script, i):
+    """index of the operation that opened the lock scope operation i runs in (None: no scope open)"""
+    depth, start = 0, None
+    for j, o in enumerate(script[:i]):
+        if o[0] in ("hold", "s_lock", "lock", "lock_again", "lock_with_token"):
+            if depth == 0:
+                start = j
+            depth += 1
+        elif o[0] in ("unlock", "s_unlock"):
+            depth = max(0, depth - 1)
+        elif o[0] == "break_lock":
+            depth = 0
+        if depth == 0:
+            start = None
+    return start
+
+
+def _tags_only_difference(op, what, l, r):
+    if what in ("state:tags", "final-state:tags"):
+        return True
+    if what == "state:C":            # the client branch C: (tip, revisions, tags) — only the tags differ
+        return l["C"][:2] == r["C"][:2]
+    if what != "result":
+        return False
+    if op[0] in ("tag_dict", "s_tag_dict"):
+        return isinstance(l, dict) and isinstance(r, dict)
+    if op[0] == "tag_delete":
+        return {str(l), str(r)} == {"ok", "E:NoSuchTag"}
+    if op[0] in ("pull_into_T", "push_from_T"):        # (old_revno, old_revid, new_revno, new_revid, tag part)
+        return isinstance(l, list) and isinstance(r, list) and len(l) == len(r) == 5 and l[:4] == r[:4]
+    if op[0] == "s_pull":                              # (old, new, number of tag conflicts)
+        return isinstance(l, list) and isinstance(r, list) and len(l) == len(r) == 3 and l[:2] == r[:2]
+    return False
+
+
+def _family(script, i, what, l, r, before=None, tv=(True, True), fx=True):
     """classify a failing step by the concrete operation, the difference and the state before the step"""
     op = script[i]
+    if (not fx and tuple(op) == ("gen_history", "null:") and what == "result" and l == [0, "null:"]
+            and r == "E:NoSuchRevision" and _lock_scope_start(script, i) is not None):
+        # get-parent-map-null-dropped, second half ("... and then caches null: as missing"): inside a lock scope
+        # an earlier graph query named null: next to other keys (push / pull do), the RemoteRepository's parents
+        # cache now holds null: as missing, and generate_revision_history(null:) cannot find it
+        return "get-parent-map-null-dropped"
+    if (what == "result" and l == "E:RevisionNotPresent" and r == "E:UnknownErrorFromSmartServer"
+            and op[0] in ("set_tip", "set_tip_fetch", "gen_history", "push", "pull_into_T")
+            and any(o[0] in ("conf_set", "conf_set_old") and o[1] == "append_revisions_only" for o in script[:i])
+            and before is not None and any(isinstance(x, str) and x not in before["revs"] and x != "null:"
+                                           for x in op[1:] if isinstance(x, str) and x not in ("A", "B"))):
+        # append_revisions_only is set and the new tip is not in the repository: the history check raises
+        # vcsgraph's RevisionNotPresent, which the server does not translate
+        return "append-revisions-only-ghost-tip-error-untranslated"
+    if not (tv[0] and tv[1]) and _tags_only_difference(op, what, l, r):
+        # RemoteBranch and its VFS branch object each cache the tags file while the lock is held and neither
+        # hears of the other's writes: inside ONE lock scope a pull that merges source tags (written by the
+        # VFS branch) and a tag access over RPC see / overwrite stale dictionaries
+        start = _lock_scope_start(script, i)
+        if start is not None:
+            scope = script[start:i + 1]
+            tagged = {o[1] for o in script[:i] if o[0] == "src_tag"}
+            # the VFS branch reads (and caches) the tags file when it merges the tags of a tagged source into
+            # the target, and whenever the target is the source of a push
+            vfs_tags = any((o[0] in PULL_OPS and (o[1] in tagged or (o[1] == "B" and "A" in tagged))) or o[0] == "push_from_T"
+                           for o in scope)
+            # tag accesses through the RemoteBranch itself (a pull FROM the target reads its tags that way too)
+            rpc_tags = any(o[0] in TAG_OPS or o[0] == "client_pull" for o in scope)
+            if vfs_tags and rpc_tags:
+                return "remote-tags-cache-stale-in-lock-scope"
     # the tip names a revision that is not stored (or null: with a non-zero revno): set_last_revision_info
     # does not check, and reads on such a state differ in results / error classes
     ghost_tip = bool(before) and before["tip"] != [0, "null:"] and before["tip"][1] not in before["revs"]
@@ -935,12 +1433,12 @@ class _Rec:
 
 def _worker(job):
     """one chunk of cases with its own server (module level: runs in a forked process)"""
-    fx, items = job
+    fx, tv, items = job
     rec = _Rec()
     srv = Srv()
     try:
         for label, script in items:
-            run_case(rec, srv, script, label=label, fx=fx)
+            run_case(rec, srv, script, label=label, fx=fx, tv=tv)
     finally:
         srv.stop()
     return rec.cases, rec.counts, rec.violations, rec.mismatches, rec.traces
@@ -950,13 +1448,25 @@ def run(ctx):
     srv = Srv()
     try:
         fx = probe_fx(srv)
+        tv = probe_tags_variant(srv)
     finally:
         srv.stop()
     ctx.extra["get_parent_map_variant"] = "null: kept (fixed)" if fx else "null: dropped (as found)"
-    items = [("general", gen_script(ctx.rng, ctx.rng.randint(6, 20))) for _ in range(ctx.pick(16, 300))]
-    items += [("modelled", gen_model_script(ctx.rng, ctx.rng.randint(8, 20))) for _ in range(ctx.pick(16, 300))]
+    ctx.extra["tag_cache_variant"] = dict(own_dropped_before_vfs_pull=tv[0], vfs_branch_dropped_after_rpc_write=tv[1])
+    items = []
+    corpus = os.path.join(env.VERIF, "corpus", "C32")
+    if os.path.isdir(corpus):          # minimised past failures first
+        for fn in sorted(os.listdir(corpus)):
+            if fn.endswith(".json"):
+                c = json.load(open(os.path.join(corpus, fn)))
+                items.append((c["kind"], _detuple(c["script"])))
+    ctx.extra["corpus_cases"] = len(items)
+    items += [("general", gen_script(ctx.rng, ctx.rng.randint(6, 20))) for _ in range(ctx.pick(16, 200))]
+    items += [("modelled", gen_model_script(ctx.rng, ctx.rng.randint(8, 20))) for _ in range(ctx.pick(16, 200))]
+    items += [("msession", gen_msession_script(ctx.rng, ctx.rng.randint(10, 22))) for _ in range(ctx.pick(16, 200))]
+    items += [("session", gen_session_script(ctx.rng, ctx.rng.randint(12, 22))) for _ in range(ctx.pick(16, 200))]
     nproc = 8
-    chunks = [(fx, items[i::nproc]) for i in range(nproc)]
+    chunks = [(fx, tv, items[i::nproc]) for i in range(nproc)]
     for cases, counts, viols, mism, traces in ctx.pmap(_worker, [c for c in chunks if c[1]], procs=nproc, chunksize=1):
         for case, nt in cases:
             ctx.case(case, nontrivial=nt)
@@ -967,15 +1477,15 @@ def run(ctx):
         for case, impl, model, line in mism:
             ctx.mismatch(case, impl, model, line=line)
         ctx.traces += traces
-    ctx.extra["scripts"] = dict(general=sum(1 for l, _ in items if l == "general"),
-                                modelled=sum(1 for l, _ in items if l == "modelled"))
+    ctx.extra["scripts"] = {k: sum(1 for l, _ in items if l == k) for k in sorted({l for l, _ in items})}
 
 
 def replay(ctx, case):
     srv = Srv()
     try:
         fx = probe_fx(srv)
-        bad = run_case(ctx, srv, _detuple(case["script"]), label=case.get("kind", "general"), fx=fx)
+        tv = probe_tags_variant(srv)
+        bad = run_case(ctx, srv, _detuple(case["script"]), label=case.get("kind", "general"), fx=fx, tv=tv)
     finally:
         srv.stop()
     return dict(case=case, impl=str(bad), model=[m for m in ctx.mismatches if m][:3],
@@ -988,6 +1498,8 @@ def _detuple(script):
         o = list(o)
         if o[0] in ("src_commit",):
             o[2] = [tuple(x) for x in o[2]]
+        if o[0] in ("parent_map", "heads") or o[0] == "missing_revs":
+            pass          # lists of revision ids stay lists
         if o[0] == "ck_commit":
             o[1] = [tuple(x) for x in o[1]]
         out.append(tuple(o))
